@@ -40,6 +40,8 @@ TReset ==
     /\ ts' = [i \in Req |-> -1] /\ gated' = [i \in Req |-> FALSE] /\ parked' = [i \in Req |-> FALSE]
     /\ sig' = [i \in Req |-> FALSE] /\ woke' = [i \in Req |-> "no"] /\ gone' = [i \in Req |-> FALSE]
     /\ deadline' = [i \in Req |-> -1] /\ res' = [i \in Req |-> "none"]
+    /\ peek' = [i \in Req |-> FALSE] /\ stamp' = [i \in Req |-> -1] /\ relWin' = [i \in Req |-> -1]
+    /\ rollStamp' = 0 /\ seq' = 1 /\ rev' = FALSE /\ held' = FALSE
     /\ rq' = <<>> /\ rel' = <<>> /\ last' = [ev |-> "reset"] /\ ok' = TRUE /\ strand' = {} /\ hist' = <<>>
     /\ pc' = [self \in Req \cup {"roll", "clock"} |-> IF self = "roll" THEN "r0" ELSE IF self = "clock" THEN "c0" ELSE "e1"]
 
@@ -65,10 +67,15 @@ QuietT == /\ inv = {}
           /\ \A i \in Req : /\ pc[i] \in {"e1", "e2", "e3", "Done"}
                             /\ ~TimerDue(i)
                             /\ (pc[i] = "e3" => woke[i] = "no")
-TQuiet == Consume("quiet") /\ QuietT /\ UNCHANGED <<vars, inv>>
+\* ... except the roll-over goroutine, which the driver holds inside its critical section (between r1 and r2)
+QuietHeld == /\ inv = {}
+             /\ pc["roll"] = "rh"
+             /\ \A i \in Req : \/ pc[i] \in {"e1", "e2", "e4", "Done"}
+                               \/ pc[i] = "e3" /\ woke[i] = "no" /\ ~TimerDue(i)
+TQuiet == Consume("quiet") /\ (IF Ev.held = 1 THEN QuietHeld ELSE QuietT) /\ UNCHANGED <<vars, inv>>
 
 IEnq == \E i \in Req : (e2(i) \/ e3(i) \/ e4(i)) /\ UNCHANGED <<l, inv>>
-IRoll == (r0 \/ r1 \/ (r2 /\ heap' = heap) \/ r3) /\ UNCHANGED <<l, inv>>
+IRoll == (r0 \/ r1 \/ rh \/ (r2 /\ heap' = heap) \/ r3) /\ UNCHANGED <<l, inv>>
 
 TNext == TReset \/ TBegin \/ IArrive \/ TEnd \/ TAdv \/ TPop \/ TQuiet \/ IEnq \/ IRoll
 
